@@ -352,11 +352,16 @@ pub fn run(ctx: &Ctx) -> ! {
         }
     }));
 
+    // ---- equality over child ranges (nested containers x child offsets x first offsets)
+    if ctx.replay.is_none() {
+        crate::c02_nested::run(ctx, &mut st);
+    }
+
     vcore::finish(
         ctx,
         Level {
             category: "exploration",
-            rule: "complete enumeration: every grid type x every column of length <= N over a 3-letter alphabet plus null x every layout with <= 2 deviations (a); all pairs of (column, layout) realisations per type for == (b); every kernel of the alphabet K on every layout of every column, compared with the compact layout's outcome class and extracted values (c); every row-wise kernel against every index vector of length <= 2, every slice and every 2-way concat split (d). Cases are distinct by construction; non-trivial = non-empty column and (for kernels) the kernel applies to the type (Ok outcome)".into(),
+            rule: "complete enumeration: every grid type x every column of length <= N over a 3-letter alphabet plus null x every layout with <= 2 deviations (a); all pairs of (column, layout) realisations per type for == (b); every kernel of the alphabet K on every layout of every column, compared with the compact layout's outcome class and extracted values (c); every row-wise kernel against every index vector of length <= 2, every slice and every 2-way concat split (d); nested equality family (e): container in {List, LargeList, FixedSizeList, Struct, Map, List<List>} x child in {Boolean, Boolean with nulls, Int32, Int32 with nulls, Utf8} x L child values (1..=18 (34)) x child offset 0..=9 (17) x first offset 0..=9 (17): == with the compact realisation both ways, != with each of the L single-position changes, filter / take / concat results equal. Cases are distinct by construction; non-trivial = non-empty column and (for kernels) the kernel applies to the type (Ok outcome)".into(),
             assumptions: vec![
                 "== is compared with model equality except for the dict-null-value layout (arrow-rs documents == as comparing physical validity for dictionaries)".into(),
                 "kernel outputs that are dictionary/run-end encoded are compared by the values they denote".into(),
